@@ -1,5 +1,7 @@
 package canvas
 
+import "math"
+
 // C05-H1: dashStart phase equivalence in exact rational arithmetic.
 // Pattern d of even length n (as Dash passes it), entries in (0,8], offset within +-3 periods.
 // Oracle: the on/off state at distance x along the path, walking the pattern from (i0,pos0)
@@ -80,4 +82,222 @@ func VH_C05_dashStart_Q() {
 	vAssert("C05.dashStart.phase", vhOnWalk(i0, pos0, d, x) == vhOnSpec(off, d, P, x))
 	// Dash only records cut positions > 0, so the start must not lie after the path start
 	vAssert("C05.dashStart.pos", pos0 <= 0)
+}
+
+// ---- C05-H2: dashCanonical ----
+// Pattern entries are either exactly 0 or k/4 in (0,8): this keeps every Equal() decision of
+// dashCanonical away from its 1e-10 tolerance, so the on/off function must be preserved exactly.
+
+// vhOnPattern: is position x (path length coordinate) drawn under pattern d shifted by off?
+// d is used as Dash uses it (odd length => doubled). P = period of the (doubled) pattern > 0.
+func vhOnPattern(off float64, d []float64, x float64) bool {
+	dd := d
+	if len(d)%2 == 1 {
+		dd = append(append([]float64{}, d...), d...)
+	}
+	P := 0.0
+	for _, v := range dd {
+		P += v
+	}
+	u := off + x
+	for k := 0; k < 6; k++ {
+		if u < 0 {
+			u += P
+		}
+	}
+	for k := 0; k < 8; k++ {
+		if u >= P {
+			u -= P
+		}
+	}
+	on := false
+	acc := 0.0
+	for i := range dd {
+		if acc <= u && u < acc+dd[i] && i%2 == 0 {
+			on = true
+		}
+		acc += dd[i]
+	}
+	return on
+}
+
+func VH_C05_dashCanonical_Q() {
+	n := vChoose(1, 3+vTier())
+	d := make([]float64, n)
+	sum := 0.0
+	for i := range d {
+		if vChoose(0, 1) == 1 {
+			d[i] = vNondetDyadic(6, 2)
+			vAssume(0 < d[i])
+		}
+		sum += d[i]
+	}
+	off := vNondetDyadic(9, 2)
+	P := sum
+	if n%2 == 1 {
+		P = 2 * sum
+	}
+	vAssume(-2*P <= off && off <= 2*P)
+	before := vhCopyData(d)
+	off2, d2 := dashCanonical(off, d)
+	vAssert("C05.dashCanonical.argument_unchanged", vhSameData(d, before))
+
+	if sum == 0 {
+		// all-zero pattern: nothing is drawn
+		vAssert("C05.dashCanonical.allzero", len(d2) == 1 && d2[0] == 0)
+		return
+	}
+	// which positions are drawn by the original pattern
+	x := vNondetDyadic(8, 2)
+	vAssume(0 <= x && x < 2*P)
+	want := vhOnPattern(off, before, x)
+	switch {
+	case len(d2) == 0:
+		vAssert("C05.dashCanonical.solid", want)
+	case len(d2) == 1 && d2[0] == 0:
+		vAssert("C05.dashCanonical.nothing", !want)
+	default:
+		good := true
+		for _, v := range d2 {
+			good = good && v > 0
+		}
+		vAssert("C05.dashCanonical.positive", good)
+		vAssert("C05.dashCanonical.same_onoff", vhOnPattern(off2, d2, x) == want)
+	}
+}
+
+// ---- C05-H3: the Dash driver on concrete axis-aligned polylines, symbolic pattern/offset ----
+// Oracle (pointwise): a point at arc length x of a subpath (x symbolic, at least 1e-6 away from
+// every dash boundary and from the subpath ends) lies on the output iff the pattern is "on" at x.
+
+type vhC05Shape struct {
+	pts    []Point // vertices of one subpath
+	closed bool
+}
+
+func vhC05Shapes(k int) []vhC05Shape {
+	switch k {
+	case 0: // open L
+		return []vhC05Shape{{pts: []Point{{0, 0}, {2, 0}, {2, 1}}}}
+	case 1: // closed unit square (Close draws the last edge)
+		return []vhC05Shape{{pts: []Point{{0, 0}, {1, 0}, {1, 1}, {0, 1}}, closed: true}}
+	default: // two subpaths: the pattern restarts on each
+		return []vhC05Shape{{pts: []Point{{0, 0}, {2, 0}, {2, 1}}}, {pts: []Point{{10, 10}, {10, 12}}}}
+	}
+}
+
+func vhC05OnSeg(a, b, p Point) bool {
+	// axis-aligned segment a-b contains p (with 1e-9 slack)
+	const e = 1e-9
+	xmin, xmax := a.X, b.X
+	if xmax < xmin {
+		xmin, xmax = xmax, xmin
+	}
+	ymin, ymax := a.Y, b.Y
+	if ymax < ymin {
+		ymin, ymax = ymax, ymin
+	}
+	return xmin-e <= p.X && p.X <= xmax+e && ymin-e <= p.Y && p.Y <= ymax+e
+}
+
+func VH_C05_dashdriver_Q() {
+	shapes := vhC05Shapes(vChoose(0, 2))
+	p := &Path{}
+	for _, s := range shapes {
+		p.MoveTo(s.pts[0].X, s.pts[0].Y)
+		for _, q := range s.pts[1:] {
+			p.LineTo(q.X, q.Y)
+		}
+		if s.closed {
+			p.Close()
+		}
+	}
+	before := vhCopyData(p.d)
+	n := 2
+	if vTier() == 1 {
+		n = vChoose(1, 3)
+	}
+	d := make([]float64, n)
+	sum := 0.0
+	for i := range d {
+		d[i] = vNondetDyadic(6, 3)
+		vAssume(0 < d[i] && d[i] <= 4)
+		sum += d[i]
+	}
+	// keep away from the repeated-pattern collapse tolerance: entries differ by 0 or >= 1/8 anyway
+	P := sum
+	if n%2 == 1 {
+		P = 2 * sum
+	}
+	off := vNondetDyadic(8, 3)
+	vAssume(-2*P <= off && off <= 2*P)
+	dArg := vhCopyData(d)
+	q := p.Dash(off, dArg...)
+	vAssert("C05.dash.receiver_unchanged", vhSameData(p.d, before))
+	vAssert("C05.dash.pattern_unchanged", vhSameData(dArg, d))
+	vAssert("C05.dash.wellformed", vhWFOut(q))
+
+	// pick a subpath and a position on it
+	si := vChoose(0, len(shapes)-1)
+	s := shapes[si]
+	pts := s.pts
+	if s.closed {
+		pts = append(append([]Point{}, pts...), pts[0])
+	}
+	L := 0.0
+	for k := 0; k+1 < len(pts); k++ {
+		L += math.Abs(pts[k+1].X-pts[k].X) + math.Abs(pts[k+1].Y-pts[k].Y)
+	}
+	x := vNondetF64()
+	vAssume(1e-6 <= x && x <= L-1e-6)
+	// general position: x is at least 1e-6 away from every dash boundary (positions off+x = k*P + acc_i)
+	// and from every vertex
+	u := off + x
+	for k := 0; k < 6; k++ {
+		if u < 0 {
+			u += P
+		}
+	}
+	for k := 0; k < 8; k++ {
+		if u >= P {
+			u -= P
+		}
+	}
+	dd := d
+	if n%2 == 1 {
+		dd = append(append([]float64{}, d...), d...)
+	}
+	acc := 0.0
+	clear := u >= 1e-6 && u <= P-1e-6
+	for i := range dd {
+		acc += dd[i]
+		clear = clear && math.Abs(u-acc) >= 1e-6
+	}
+	vAssume(clear)
+	// the point at arc length x
+	var pt Point
+	T := 0.0
+	awayFromVertex := true
+	for k := 0; k+1 < len(pts); k++ {
+		a, b := pts[k], pts[k+1]
+		l := math.Abs(b.X-a.X) + math.Abs(b.Y-a.Y)
+		if T <= x && x < T+l {
+			f := (x - T) / l
+			pt = Point{a.X + f*(b.X-a.X), a.Y + f*(b.Y-a.Y)}
+		}
+		T += l
+		awayFromVertex = awayFromVertex && math.Abs(x-T) >= 1e-6
+	}
+	vAssume(awayFromVertex)
+	want := vhOnPattern(off, d, x)
+	// is pt on the output?
+	subs, ok := vhDecode(q.d)
+	vAssert("C05.dash.decodable", ok)
+	covered := false
+	for _, sub := range subs {
+		for _, sg := range sub.segs {
+			covered = covered || vhC05OnSeg(sg.start, sg.end, pt)
+		}
+	}
+	vAssert("C05.dash.onoff_pointwise", covered == want)
 }
